@@ -345,11 +345,21 @@ class C13(Check):
                   Interner('interner, names of 2 bytes, keyword table', 2, 2, True, required=('compared',)),
                   Keywords('keyword case variants', 8, required=('compared',)),
                   Relayout('re-layout of snippets', snippets, required=('compared', 'case flipped'))]
+        from .analysis_kit import ProjectKit
+        from .invariance import AnalysisInvariance
+        from . import designs as DS
+        if not hasattr(self, 'pkit'): self.pkit = ProjectKit(self, log=self.log)
+        ds = [DS.MUT_DESIGN, DS.DESIGNS[4], DS.DESIGNS[3]]
+        q = self.tier == 'quick'
+        ps.append(AnalysisInvariance('analysis: letter case of one identifier or keyword', ds, 'case', stride=6 if q else 1, offset=self.seed % 6 if q else 0,
+                                     required=('compared', 'diagnostics present', 'quoted name re-spelled')))
+        ps.append(AnalysisInvariance('analysis: re-layout at one gap between tokens', ds, 'layout', stride=12 if q else 1, offset=self.seed % 12 if q else 0,
+                                     required=('compared', 'diagnostics present', 'line break inserted')))
         self._parts = ps
         return ps
 
     def assumptions(self):
-        return ['kernel only: that parser, analyser and lints compare symbols only by id is a whole-program claim outside this check',
+        return ['analysis parts: three listed designs, one token (case) or one gap (layout) changed at a time; several simultaneous changes and ieee are outside',
                 'basic identifiers are inserted with SymbolTable::insert (names not starting with a backslash), extended ones with insert_extended, as the tokenizer does',
                 'FnvHashMap is modelled (association list with forking key comparison); RwLock transparent, single thread',
                 're-layout: only replaces an existing blank between tokens and flips one letter; the separator set is listed in the bounds']
